@@ -113,12 +113,22 @@ def _ctor_params(ctx, rel, cls):
     return c, init, [p for p in init.params if p not in NON_CONTENT and p != "kwargs"]
 
 
-def _dump_keys(f):
-    """Keys of the dict literal bound to `new_dict` in a dumper function."""
-    for st in walk_shallow(f.node):
-        if isinstance(st, ast.Assign) and isinstance(st.value, ast.Dict) and any(isinstance(t, ast.Name) and t.id == "new_dict" for t in st.targets):
-            return st, [k.value for k in st.value.keys if isinstance(k, ast.Constant)]
-    raise AnalysisError(f"{f.qual}: dump dictionary literal `new_dict` not found")
+def _dump_keys(ctx, f):
+    """(statement, keys) of the dictionary a dumper function hands to add_to_dict (a dict literal, possibly through a local)."""
+    from engine.util import normalise
+    from engine.cfg import stmt_of
+    calls = [c for c in walk_shallow(f.node) if isinstance(c, ast.Call) and call_name(c) == "add_to_dict" and len(c.args) >= 2]
+    if len(calls) != 1:
+        raise AnalysisError(f"{f.qual}: expected one add_to_dict(template, dict, full_dict) call, found {len(calls)}")
+    d = normalise(ctx, f, calls[0].args[1])
+    if not isinstance(d, ast.Dict) or any(k is None for k in d.keys):
+        raise AnalysisError(f"{f.qual}: the dictionary handed to add_to_dict is not a dict literal: {ast.unparse(d)[:80]}")
+    anchor = stmt_of(ctx.cfg(f), calls[0])
+    if isinstance(calls[0].args[1], ast.Name):
+        for st in walk_shallow(f.node):
+            if isinstance(st, ast.Assign) and isinstance(st.value, ast.Dict) and any(isinstance(t, ast.Name) and t.id == calls[0].args[1].id for t in st.targets):
+                anchor = st
+    return anchor, [k.value for k in d.keys if isinstance(k, ast.Constant)]
 
 
 def _loaded_dict_name(loader) -> str:
@@ -134,7 +144,7 @@ def r2_dumper_vs_constructor(ctx, rid):
     pairs = [("from_circuit", FC, "CircuitTemplate"), ("from_node", FG, "OperatorGraphTemplate"), ("from_operator", FO, "OperatorTemplate")]
     for fn, rel, cls in pairs:
         f = ctx.repo.get_func(FD, fn)
-        st, keys = _dump_keys(f)
+        st, keys = _dump_keys(ctx, f)
         c, init, content = _ctor_params(ctx, rel, cls)
         all_params = set(init.params)
         extra = [k for k in keys if k != "base" and k not in all_params]
@@ -152,25 +162,35 @@ def r2_dumper_vs_constructor(ctx, rid):
     # the loader instantiates with exactly the loaded dictionary, name = template key
     loader = ctx.repo.get_func(FT, "from_yaml")
     loaded = _loaded_dict_name(loader)
-    inst = [c for c in walk_shallow(loader.node) if isinstance(c, ast.Call) and isinstance(c.func, ast.Name) and c.func.id == "cls"]
-    if len(inst) == 1 and len(inst[0].keywords) == 1 and inst[0].keywords[0].arg is None and ast.unparse(inst[0].keywords[0].value) == loaded:
+    def _class_from_registry(c):
+        v = single_def_value(ctx, loader, c.func) if isinstance(c.func, ast.Name) else c.func
+        return isinstance(v, ast.Subscript) and "known_template_classes" in ast.unparse(v.value)
+    inst = [c for c in walk_shallow(loader.node) if isinstance(c, ast.Call) and _class_from_registry(c)]
+    if len(inst) == 1 and not inst[0].args and len(inst[0].keywords) == 1 and inst[0].keywords[0].arg is None and ast.unparse(inst[0].keywords[0].value) == loaded:
         ctx.ok(rid, loader, inst[0], "known template classes are instantiated with exactly the loaded dictionary", nontrivial=False)
     else:
         raise AnalysisError(f"{rid}: from_yaml no longer instantiates with cls(**template_dict)")
 
 
 def r3_derived_inherits_everything(ctx, rid):
+    """Decided on update_template with its private helpers spliced in; "derives from" follows every reaching definition of every
+    local transitively (engine.util.value_sources)."""
+    from engine.inline import inlined
+    from engine.util import value_sources
     for rel, cls in ((FC, "CircuitTemplate"), (FG, "OperatorGraphTemplate"), (FO, "OperatorTemplate")):
         c, init, content = _ctor_params(ctx, rel, cls)
-        upd = c.methods.get("update_template")
-        if upd is None:
+        upd0 = c.methods.get("update_template")
+        if upd0 is None:
             raise AnalysisError(f"anchor vanished: {cls}.update_template")
+        upd = inlined(ctx, upd0)
+        selfn = upd0.self_name
+
         def _is_self_ctor(x):
             fn = x.func
-            if isinstance(fn, ast.Attribute) and fn.attr == "__class__" and isinstance(fn.value, ast.Name) and fn.value.id == upd.self_name:
+            if isinstance(fn, ast.Attribute) and fn.attr == "__class__" and isinstance(fn.value, ast.Name) and fn.value.id == selfn:
                 return True
             if isinstance(fn, ast.Call) and isinstance(fn.func, ast.Name) and fn.func.id == "type" and len(fn.args) == 1 \
-                    and isinstance(fn.args[0], ast.Name) and fn.args[0].id == upd.self_name:
+                    and isinstance(fn.args[0], ast.Name) and fn.args[0].id == selfn:
                 return True
             return isinstance(fn, ast.Name) and fn.id == cls
         calls = [x for x in walk_shallow(upd.node) if isinstance(x, ast.Call) and _is_self_ctor(x)]
@@ -183,39 +203,35 @@ def r3_derived_inherits_everything(ctx, rid):
         ctor_pos = [p_ for p_ in init.params if p_ != init.self_name]
         kws = {ctor_pos[i]: a for i, a in enumerate(call.args) if i < len(ctor_pos)}
         kws.update({k.arg: k.value for k in call.keywords})
+        src = {}
         for p in content + ["name", "path", "description"]:
             if p not in init.params:
                 continue
             if p not in kws:
-                ctx.violation(rid, upd, call, f"{cls}.update_template does not forward `{p}` to the derived instance: a template derived via "
-                                              f"`base:` / update_template silently loses its {p}", label=f"{cls}: forwards `{p}`")
+                ctx.violation(rid, upd0, call, f"{cls}.update_template does not forward `{p}` to the derived instance: a template derived via "
+                                               f"`base:` / update_template silently loses its {p}", label=f"{cls}: forwards `{p}`")
                 continue
             v = kws[p]
-            # the forwarded value is the update parameter of the same name or the base's own attribute
-            names = {n.id for n in ast.walk(v) if isinstance(n, ast.Name)}
-            attrs = {n.attr for n in ast.walk(v) if isinstance(n, ast.Attribute)}
-            okv = p in names or p in attrs or (p == "description" and "__doc__" in attrs)
-            if not okv and isinstance(v, ast.Name):
-                dv = single_def_value(ctx, upd, v)
-                if dv is not None:
-                    okv = p in {n.attr for n in ast.walk(dv) if isinstance(n, ast.Attribute)} or p in {n.id for n in ast.walk(dv) if isinstance(n, ast.Name)}
+            # the forwarded value derives from the update parameter of the same name or from the base's own attribute
+            params_, attrs_, _ = value_sources(ctx, upd, v)
+            src[p] = (params_, attrs_)
+            own = {f"{selfn}.{p}"} | ({f"{selfn}.__doc__"} if p == "description" else set())
+            okv = p in params_ or bool(own & attrs_)
             if okv:
-                ctx.ok(rid, upd, call, f"`{p}` is forwarded (update value or the base's own)", label=f"{cls}: forwards `{p}`")
+                ctx.ok(rid, upd0, call, f"`{p}` is forwarded (update value or the base's own)", label=f"{cls}: forwards `{p}`")
             else:
-                ctx.violation(rid, upd, call, f"{cls}.update_template forwards `{ast.unparse(v)}` as `{p}`", label=f"{cls}: forwards `{p}`")
+                ctx.violation(rid, upd0, call, f"{cls}.update_template forwards `{ast.unparse(v)}` as `{p}`, which derives neither from the "
+                                               f"update argument `{p}` nor from self.{p}", label=f"{cls}: forwards `{p}`")
         # a parameter that update_template accepts falls back to the base's value when not given
-        for p in [x for x in upd.params if x in content]:
-            fallback = False
-            for st in walk_shallow(upd.node):
-                if isinstance(st, ast.Assign) and any(isinstance(t, ast.Name) and t.id == p for t in st.targets):
-                    if any(isinstance(a, ast.Attribute) and a.attr == p and isinstance(a.value, ast.Name) and a.value.id == upd.self_name
-                           for a in ast.walk(st.value)):
-                        fallback = True
+        for p in [x for x in upd0.params if x in content]:
+            if p not in src:
+                continue
+            fallback = f"{selfn}.{p}" in src[p][1]
             if fallback:
-                ctx.ok(rid, upd, upd.node, f"`{p}` falls back to / is merged with the base's own {p}", label=f"{cls}: `{p}` inherits from base")
+                ctx.ok(rid, upd0, upd0.node, f"`{p}` falls back to / is merged with the base's own {p}", label=f"{cls}: `{p}` inherits from base")
             else:
-                ctx.violation(rid, upd, upd.node, f"{cls}.update_template never reads self.{p}: an update that omits `{p}` loses the base's {p}",
-                              label=f"{cls}: `{p}` inherits from base")
+                ctx.violation(rid, upd0, upd0.node, f"the `{p}` handed to the derived instance never derives from self.{p}: an update that omits "
+                                                    f"`{p}` loses the base's {p}", label=f"{cls}: `{p}` inherits from base")
 
 
 def r4_edits_use_boundary_aware_helper(ctx, rid):
@@ -227,6 +243,7 @@ def r4_edits_use_boundary_aware_helper(ctx, rid):
             helper = local
     if helper is None:
         raise AnalysisError(f"{rid}: operator.py no longer imports parser.replace")
+    eqn = f.params[0]
     good_calls = [c for c in walk_shallow(f.node) if isinstance(c, ast.Call) and isinstance(c.func, ast.Name) and c.func.id == helper]
     bad_calls = [c for c in walk_shallow(f.node) if isinstance(c, ast.Call) and isinstance(c.func, ast.Attribute)
                  and c.func.attr in ("replace", "translate") or (isinstance(c, ast.Call) and dotted(c.func) in ("re.sub", "_re.sub"))]
@@ -234,13 +251,35 @@ def r4_edits_use_boundary_aware_helper(ctx, rid):
         ctx.violation(rid, f, c, "an equation edit uses plain string replacement: every occurrence is replaced, also inside longer identifiers")
     for c in good_calls:
         first = c.args[0] if c.args else None
-        if isinstance(first, ast.Name) and first.id == "equation":
+        if isinstance(first, ast.Name) and first.id == eqn:
             ctx.ok(rid, f, c, "edit applied with the boundary-aware helper parser.replace", nontrivial=False)
         else:
             ctx.violation(rid, f, c, "the boundary-aware helper is not applied to the equation being edited")
-    if len(good_calls) < 3:
-        ctx.violation(rid, f, f.node, f"only {len(good_calls)} uses of parser.replace in _update_equation (replace and both remove forms need it)",
-                      label="helper call count")
+
+    # every form of the `replace` and `remove` edits applies the helper and stores the result back into the equation
+    def applies(st) -> bool:
+        if isinstance(st, (ast.Assign, ast.AugAssign)):
+            tg = st.targets if isinstance(st, ast.Assign) else [st.target]
+            return any(isinstance(t, ast.Name) and t.id == eqn for t in tg) and any(c in good_calls for c in ast.walk(st.value))
+        if isinstance(st, (ast.For, ast.While)):
+            return covers(st.body)
+        if isinstance(st, ast.If):
+            return bool(st.orelse) and covers(st.body) and covers(st.orelse)
+        if isinstance(st, (ast.With, ast.Try)):
+            return covers(st.body)
+        return False
+
+    def covers(stmts) -> bool:
+        return any(applies(x) for x in stmts)
+    for key in ("replace", "remove"):
+        blocks = [st for st in walk_shallow(f.node) if isinstance(st, ast.If) and isinstance(st.test, ast.Name) and st.test.id == key]
+        if key not in f.params or not blocks:
+            continue            # reported below as "edit key not handled"
+        if all(covers(b.body) for b in blocks):
+            ctx.ok(rid, f, blocks[0], f"every form of the `{key}` edit is applied with the boundary-aware helper", label=f"`{key}` uses the helper")
+        else:
+            ctx.violation(rid, f, blocks[0], f"a form of the `{key}` edit does not apply parser.replace to the equation (the edit is dropped or done "
+                                             f"without token boundaries)", label=f"`{key}` uses the helper")
     # every documented edit key is handled
     params = set(f.params)
     for key in ("replace", "remove", "append", "prepend"):
@@ -250,11 +289,12 @@ def r4_edits_use_boundary_aware_helper(ctx, rid):
             ctx.violation(rid, f, f.node, f"edit key `{key}` is not handled by _update_equation (the edit would be silently ignored or rejected)",
                           label=f"edit key {key}")
     # `add` is popped before the per-equation rules are applied and its equations are appended
-    upd = ctx.repo.get_func(FO, "OperatorTemplate.update_template")
+    from engine.inline import inlined
+    upd = inlined(ctx, ctx.repo.get_func(FO, "OperatorTemplate.update_template"))
     pops = [c for c in walk_shallow(upd.node) if isinstance(c, ast.Call) and call_name(c) == "pop" and c.args
             and isinstance(c.args[0], ast.Constant) and c.args[0].value == "add"]
     if len(pops) == 1:
-        ctx.ok(rid, upd, pops[0], "`add` is separated from the per-equation edit rules", nontrivial=False)
+        ctx.ok(rid, upd, pops[0], "`add` is separated from the per-equation edit rules", nontrivial=False, label="`add` popped first")
     else:
         raise AnalysisError(f"{rid}: handling of the `add` edit key not recognised")
 
@@ -294,7 +334,8 @@ def r5_dump_key_is_free(ctx, rid):
 
 
 def r6_loader_derivation(ctx, rid):
-    f = ctx.repo.get_func(FT, "from_yaml")
+    from engine.inline import inlined
+    f = inlined(ctx, ctx.repo.get_func(FT, "from_yaml"), keep=("_complete_template_path",))       # the derivation may live in a private helper
     calls = [c for c in walk_shallow(f.node) if isinstance(c, ast.Call) and call_name(c) == "update_template"]
     if len(calls) != 1:
         raise AnalysisError(f"{rid}: from_yaml: expected one update_template call")
